@@ -88,13 +88,15 @@ func TestC10Close(t *testing.T) {
 			act["silentServer"] = false
 		}
 		closeCtxFirst := nctx > 0 && rapid.Bool().Draw(t, "closeCtxFirst")
+		raceStart := rapid.IntRange(0, 2).Draw(t, "raceStart") == 0
+		raceDelayUs := rapid.SampledFrom([]int{0, 50, 500, 3000}).Draw(t, "raceDelayUs")
 		var acts []string
 		for k, v := range act {
 			if v {
 				acts = append(acts, k)
 			}
 		}
-		doc := map[string]interface{}{"test": "TestC10Close", "ctor": p.Name, "transport": tr, "listens": listens, "nctx": nctx, "activities": fmt.Sprint(act), "closeCtxFirst": closeCtxFirst, "rseed": os.Getenv("VERIF_RSEED")}
+		doc := map[string]interface{}{"test": "TestC10Close", "ctor": p.Name, "transport": tr, "listens": listens, "nctx": nctx, "activities": fmt.Sprint(act), "closeCtxFirst": closeCtxFirst, "raceStart": raceStart, "raceDelayUs": raceDelayUs, "rseed": os.Getenv("VERIF_RSEED")}
 		var fmu sync.Mutex
 		var failures [][2]string
 		fail := func(k, f string, a ...interface{}) {
@@ -346,22 +348,28 @@ func TestC10Close(t *testing.T) {
 				}()
 			}
 		}
-		// let the calls block; the ones that returned already are collected
-		time.Sleep(40 * time.Millisecond)
+		// Either let the calls block first (the ones that returned already are collected, the rest
+		// is verified blocked), or race Close with the start of the activities.
 		early := 0
-	drain:
-		for {
-			select {
-			case r := <-results:
-				early++
-				if r.err != nil && strings.HasPrefix(r.what, "Recv") {
-					fail("recv-early-error", "%s returned %v before Close although nothing was closed", r.what, r.err)
+		if raceStart {
+			time.Sleep(time.Duration(raceDelayUs) * time.Microsecond)
+			closeCtxFirst = false
+		} else {
+			time.Sleep(40 * time.Millisecond)
+		drain:
+			for {
+				select {
+				case r := <-results:
+					early++
+					if r.err != nil && strings.HasPrefix(r.what, "Recv") {
+						fail("recv-early-error", "%s returned %v before Close although nothing was closed", r.what, r.err)
+					}
+				default:
+					break drain
 				}
-			default:
-				break drain
 			}
+			blockedVerified = pending - early
 		}
-		blockedVerified = pending - early
 		pending -= early
 
 		// close a context first: only that context's calls end
@@ -574,8 +582,11 @@ func TestC10Close(t *testing.T) {
 		if blockedVerified > 0 {
 			stats.Class("verified_blocked_calls")
 		}
-		if blockedVerified > 0 || inflight > 0 {
-			stats.NonTrivial(fmt.Sprintf("%s|%s|%v|%d|%v|%v", p.Name, tr, listens, nctx, act, closeCtxFirst))
+		if raceStart {
+			stats.Class("close_races_with_start")
+		}
+		if blockedVerified > 0 || inflight > 0 || raceStart && pending > 0 {
+			stats.NonTrivial(fmt.Sprintf("%s|%s|%v|%d|%v|%v|%v|%d", p.Name, tr, listens, nctx, act, closeCtxFirst, raceStart, raceDelayUs))
 		}
 		stats.Sample(doc)
 	})
